@@ -57,9 +57,43 @@ def guards_of(fn, target_bb, require_err=True, env=None):
             continue
         if si[0] == "bool":
             cond = k9.kexpr(fn, "c:" + si[1], env) if si[1] else "?"
+            if cond.startswith("?") or cond.startswith("Not(?"):
+                m = resolve_matches(fn, si[1])
+                if m:
+                    cond = m
         elif si[0] == "enum":
             cond = "discr(" + k9.kexpr(fn, "c:" + si[1][0], env) + ")"
         else:
             cond = "int(" + (k9.kexpr(fn, "c:" + si[1], env) if si[1] else "?") + ")"
         out.append((sb, cond, passing[0][0]))
     return out
+
+
+def resolve_matches(fn, pl):
+    """a bool local assigned constant true/false under an enum switch (the expansion of `matches!(place, Variant..)`,
+    possibly negated): -> 'matches(<place expr> is A|B)' / 'Not(matches(..))'"""
+    neg = False
+    l = place_local(pl)
+    ds = fn.defs().get(l, [])
+    # look through a single `Not`
+    if len(ds) == 1 and ds[0][1] == "stmt" and ds[0][2][1][0] == "un" and ds[0][2][1][1] == "Not":
+        inner = op_place(ds[0][2][1][2])
+        if inner is None:
+            return None
+        neg = True
+        l = place_local(inner)
+        ds = fn.defs().get(l, [])
+    if len(ds) < 2 or not all(d[1] == "stmt" and d[2][1][0] == "use" and isinstance(d[2][1][1], dict) and isinstance(d[2][1][1].get("v"), bool) for d in ds):
+        return None
+    from c15 import controlling_switches
+    trues = [d for d in ds if d[2][1][1]["v"] is True]
+    labels, place = [], None
+    for d in trues:
+        cs = [(sb, val) for sb, val in controlling_switches(fn, d[0]) if fn.switch_info(sb)[0] == "enum"]
+        if not cs:
+            return None
+        sb, val = cs[-1]
+        place = k9.kexpr(fn, "c:" + fn.switch_info(sb)[1][0])
+        labels.append(str(val))
+    e = f"matches({place} is {'|'.join(sorted(set(labels)))})"
+    return f"Not({e})" if neg else e
